@@ -74,7 +74,11 @@ func (m *Model) UpdatePositions(positions *traits.OpenClosePositions, opts ...re
 		if preset == nil {
 			return nil, status.Errorf(codes.InvalidArgument, "preset %q not found", positions.Preset.Name)
 		}
-		positions.States = presetPositions
+		// copies: positions stays the caller's message, the preset's positions stay ours
+		positions.States = make([]*traits.OpenClosePosition, len(presetPositions))
+		for i, position := range presetPositions {
+			positions.States[i] = proto.Clone(position).(*traits.OpenClosePosition)
+		}
 	}
 
 	writeRequest := resource.ComputeWriteConfig(opts...)
